@@ -805,9 +805,13 @@ func (st *Runtime) isSet(node Node) (ok bool) {
 		resolved, err := st.evalChainNodeExpression(node)
 		return err == nil && notNil(resolved)
 	default:
-		//todo: maybe work some edge cases
 		if !(nodeType > beginExpressions && nodeType < endExpressions) {
 			node.errorf("unexpected %q node in isset clause", node)
+		}
+		// any other expression (a literal, a call, an operation) is set when it
+		// evaluates to something that is not nil
+		if expr, ok := node.(Expression); ok {
+			return notNil(st.evalPrimaryExpressionGroup(expr))
 		}
 	}
 	return true
